@@ -6,6 +6,7 @@ open Oryx Oryx.RtmpTxn
 def parseAct (s : String) : Option Act :=
   if s == "w" then some .w
   else if s.startsWith "r" then (s.drop 1).toString.toNat?.map Act.r
+  else if s.startsWith "s" then (s.drop 1).toString.toNat?.map Act.stray
   else none
 
 def orderStr : Gen.Rtmp.TxnOrder → String
@@ -29,7 +30,7 @@ def handle (op : String) (args : List String) : Option String :=
     let acts ← if sched == "_" then some [] else (sched.splitOn ",").mapM parseAct
     match run (init o reqs) acts with
     | none => pure "not-enabled"
-    | some s => pure s!"matched={natsStr s.matched.reverse} failed={natsStr s.failed.reverse} table={natsStr s.table}"
+    | some s => pure s!"matched={natsStr s.matched.reverse} failed={natsStr s.failed.reverse} table={natsStr s.table} refused={natsStr s.refused.reverse}"
   | _, _ => none
 
 end Oracle.Txn
